@@ -215,8 +215,8 @@ func (r *runner) holdersLocked() (h [nAddr][]int) {
 }
 
 const (
-	probeTimeout = 2 * time.Second
-	deadTimeout  = 150 * time.Millisecond // address nobody holds: refused/ENOENT arrive at once, only a lingering socket makes us wait
+	probeTimeout = 4 * time.Second
+	deadTimeout  = 150 * time.Millisecond // unix address nobody holds: refused/ENOENT arrive at once, only a lingering socket makes us wait
 )
 
 func (r *runner) record(kind byte, gen int, mod string, probe bool) *event {
@@ -232,9 +232,9 @@ func (r *runner) record(kind byte, gen int, mod string, probe bool) *event {
 			switch {
 			case !held && isUnix(a) && r.linger[a-nTCP]:
 				ev.ans[a] = "-"
-			case !held:
+			case !held && isUnix(a):
 				ans, _, _ := r.env.get(a, "/id", deadTimeout)
-				if ans == ansTimeout && isUnix(a) {
+				if ans == ansTimeout {
 					r.linger[a-nTCP] = true
 				}
 				ev.ans[a] = ans
